@@ -87,6 +87,7 @@ type fakeIdp struct {
 	omitIDToken bool
 	omitRefreshToken bool // the code grant answers without refresh_token (optional per RFC 6749 §5.1)
 	jwksNoAlg   bool
+	extraJwks   []map[string]any
 }
 
 type rtData struct {
@@ -112,6 +113,20 @@ func newFakeIdp() *fakeIdp {
 	mux.HandleFunc("/token", ip.token)
 	mux.HandleFunc("/par", ip.par)
 	mux.HandleFunc("/jwks", func(w http.ResponseWriter, r *http.Request) {
+		if len(ip.extraJwks) > 0 {
+			// further published keys that are NOT for RS256 ID-token signatures: a signing key for another algorithm, an encryption key
+			b, _ := json.Marshal(ip.keys.Public)
+			var doc map[string][]map[string]any
+			json.Unmarshal(b, &doc)
+			if ip.jwksNoAlg {
+				for _, k := range doc["keys"] {
+					delete(k, "alg")
+				}
+			}
+			doc["keys"] = append(doc["keys"], ip.extraJwks...)
+			json.NewEncoder(w).Encode(doc)
+			return
+		}
 		if !ip.jwksNoAlg {
 			json.NewEncoder(w).Encode(ip.keys.Public)
 			return
